@@ -151,7 +151,7 @@ Section Main.
         intros bs n s1 H. apply read_u32_len in H. cbn [bpos]. lia.
       + intros n. apply cbound_map.
         assert (alpha * (4096 + 1) <= alpha * (CHUNK + 4096 + 1)) by (apply N.mul_le_mono_l; lia).
-        eapply cbound_weaken; [| | | | |apply (cpush_loop_bound alpha beta 0 0 0 0 1 rd n Hrd)]; try lia; auto; unfold U32; lia.
+        eapply cbound_weaken; [| | | | |apply (cpush_loop_bound alpha beta 0 0 0 0 1 rd n Hrd)]; try lia; auto.
     - (* seq *)
       cbn [cdec wire_pos K0 K1 B0 B1]. cbn [fam] in Hfam.
       destruct (mem_zst (key_ty k t')) eqn:Ez.
